@@ -35,6 +35,9 @@ type FakeServer struct {
 
 	// Hook, when set, can replace the answer to a COM_QUERY / COM_STMT_EXECUTE (used to plant arbitrary result sets).
 	Hook func(sql string) (*Result, bool)
+	// PrepareHook, when set, can describe a statement of COM_STMT_PREPARE the store's own parser does not take (joins,
+	// sub-queries: C09); its executions are then answered by Hook (the bound parameters are in Received()).
+	PrepareHook func(sql string) (nparams int, fields []Field, ok bool)
 }
 
 func newFakeServer(conn net.Conn, store *Store, caps uint32) *FakeServer {
@@ -74,7 +77,11 @@ func FieldDef(schema string, f Field) ColumnDef {
 	if org == "" {
 		org = f.Name
 	}
-	return ColumnDef{Schema: schema, Table: f.Table, OrgTable: f.Table, Name: f.Name, OrgName: org, Charset: cs, Length: ln, Type: typ, Flags: fl}
+	tbl := f.Table
+	if f.TableAlias != "" {
+		tbl = f.TableAlias
+	}
+	return ColumnDef{Schema: schema, Table: tbl, OrgTable: f.Table, Name: f.Name, OrgName: org, Charset: cs, Length: ln, Type: typ, Flags: fl}
 }
 
 func (f *FakeServer) status() uint16 { return StatusAutocommit }
@@ -202,6 +209,11 @@ func (f *FakeServer) serve() {
 			var fields []Field
 			if err == nil {
 				fields, err = f.Store.Describe(pr)
+			}
+			if f.PrepareHook != nil {
+				if np, fds, ok := f.PrepareHook(sql); ok {
+					pr, fields, err = &Prepared{SQL: sql, st: &parsedStmt{kind: "other", nParams: np}, NParams: np}, fds, nil
+				}
 			}
 			if err != nil {
 				f.sendErr(w, err)
